@@ -101,3 +101,73 @@ Proof.
   destruct e1 as [|c1 t1]; [contradiction|]. destruct e2 as [|c2 t2]; [contradiction|].
   intros H. apply app_inv_head in H. apply app_inv_head in H. inversion H. reflexivity.
 Qed.
+
+(* ---------- rel_root: what is pushed onto the object directory is never absolute ---------- *)
+Definition noslash (x : str) : Prop := forall c, In c x -> is_slash c = false.
+
+Lemma split_slash_noslash : forall p cur, noslash cur -> Forall noslash (split_slash p cur).
+Proof.
+  induction p as [|c t IH]; intros cur Hc; cbn [split_slash].
+  - constructor; [|constructor]. intros d Hd. apply Hc. apply in_rev. exact Hd.
+  - destruct (is_slash c) eqn:E.
+    + constructor; [intros d Hd; apply Hc; apply in_rev; exact Hd|]. apply IH. intros d [].
+    + apply IH. intros d [<-|Hd]; [exact E|apply Hc, Hd].
+Qed.
+
+Lemma drop_comps_Forall (P : str -> Prop) : forall l k first abs, Forall P l -> Forall P (drop_comps l k first abs).
+Proof.
+  induction l as [|x t IH]; intros k first abs HF; destruct k as [|k]; cbn [drop_comps]; try exact HF.
+  inversion HF as [|? ? Hx Ht]; subst. destruct x as [|c r].
+  - destruct (first && abs); apply IH, Ht.
+  - destruct (str_eqb (c :: r) [ch_dot] && negb (first && negb abs)); apply IH, Ht.
+Qed.
+
+Lemma trim_left_Forall (P : str -> Prop) l : Forall P l -> Forall P (trim_left l).
+Proof.
+  induction l as [|x t IH]; intros HF; cbn [trim_left]; [constructor|].
+  inversion HF as [|? ? Hx Ht]; subst. destruct (is_filler x); [apply IH, Ht|exact HF].
+Qed.
+
+Lemma trim_left_head l x t : trim_left l = x :: t -> is_filler x = false.
+Proof.
+  induction l as [|y r IH]; cbn [trim_left]; [discriminate|].
+  destruct (is_filler y) eqn:E; [exact IH|]. intros [= <- _]. exact E.
+Qed.
+
+(* trimming fillers at the end keeps a head that is no filler *)
+Lemma trim_right_head x t : is_filler x = false -> exists t', rev (trim_left (rev (x :: t))) = x :: t'.
+Proof.
+  intros Hx. induction t as [|y r IH] using rev_ind.
+  - cbn. rewrite Hx. exists []. reflexivity.
+  - assert (E : rev (x :: r ++ [y]) = y :: rev (x :: r)).
+    { change (x :: r ++ [y]) with ((x :: r) ++ [y]). rewrite rev_app_distr. reflexivity. }
+    rewrite E. cbn [trim_left]. destruct (is_filler y).
+    + exact IH.
+    + exists (r ++ [y]). rewrite <- E, rev_involutive. reflexivity.
+Qed.
+
+Lemma join_slash_head x t : x <> [] -> noslash x -> is_absolute (join_slash (x :: t)) = false.
+Proof.
+  intros Hne Hns. destruct x as [|c r]; [contradiction|].
+  assert (Hc : is_slash c = false) by (apply Hns; left; reflexivity).
+  destruct t; cbn; exact Hc.
+Qed.
+
+Theorem rel_root_relative p : is_absolute (rel_root p) = false.
+Proof.
+  unfold rel_root. destruct (is_absolute p) eqn:Ea; [|exact Ea].
+  unfold strip_prefix.
+  assert (Hp : list_prefix (components [ch_slash]) (components p) = true).
+  { change (components [ch_slash]) with [[ch_slash]]. unfold components. rewrite Ea. reflexivity. }
+  rewrite Hp.
+  change (length (components [ch_slash])) with 1. cbv iota beta.
+  set (rest := drop_comps (split_slash p []) 1 true (is_absolute p)).
+  assert (HF : Forall noslash (trim_left rest)).
+  { apply trim_left_Forall, drop_comps_Forall, split_slash_noslash. intros c []. }
+  destruct (trim_left rest) as [|x t] eqn:Et; [reflexivity|].
+  pose proof (trim_left_head _ _ _ Et) as Hx.
+  destruct (trim_right_head x t Hx) as [t' ->].
+  apply join_slash_head.
+  - intros ->. discriminate Hx.
+  - inversion HF; assumption.
+Qed.
